@@ -1,91 +1,156 @@
+"""Helper that writes findings.d/C04.json (run: python notes/C04-mk-findings.py).  One entry per
+(class, parameter) or (body owner, method): a different deviation of the same class, or the same kind
+of deviation in another class, is NOT matched and is reported as a VIOLATION."""
 import json
-F=[]
-def add(what, match):
-    F.append({"id":"F-C04-%d"%(len(F)+1),"property":"C04","status":"open","what":what,"match":match})
-def ctor(cls,param,what):
-    add("%s.__init__: %s" % (cls, what), {"kinds":["ctor_static","p_ctor"],"clause_re":"^ctor-(not-verbatim|arg-not-stored)","where":{"cls":cls,"param":param}})
-for c in ("ARIMA","AutoARIMA","AutoETS","PCATransformer","KNeighborsTimeSeriesClassifier"):
-    ctor(c,"**","takes **kwargs, which get_params()/clone cannot see (arguments passed that way are lost on clone)")
-ctor("KNeighborsTimeSeriesClassifier","weights","stores weights=_check_weights(weights) (validated/normalised in the constructor)")
-ctor("BaseStrategy","estimator","stores `estimator` as `_estimator` (validated in the constructor), so get_params()/set_params break for every benchmarking strategy")
-ctor("BaseStrategy","name","stores `name` as `_name` (defaulted from the estimator class name when None)")
-ctor("ColumnEnsembleClassifier","remainder","stores `remainder` and then calls BaseColumnEnsembleClassifier.__init__, which overwrites it with the literal 'drop': the argument is silently ignored")
-ctor("Deseasonalizer","sp","stores sp=check_sp(sp) and raises on a bad `model` in the constructor (validation belongs in fit); inherited by ConditionalDeseasonalizer")
-ctor("ElasticEnsemble","distance_measures","replaces distance_measures='all' by the list of distance functions")
-for p in ("stc_params","tsf_params","rise_params","cboss_params"):
-    ctor("HIVECOTEV1",p,"replaces %s=None by a default dict before storing it" % p)
-ctor("MeanSquaredScaledError","sp","ignores its `sp` argument: passes the literal sp=1 to the wrapper")
-for c in ("MiniRocket","MiniRocketMultivariate"):
-    ctor(c,"random_state","stores np.int32(random_state) or None instead of the argument")
-ctor("Rocket","random_state","stores random_state only if it is an int, None otherwise (RandomState instances are dropped)")
-for p in ("changepoint_prior_scale","holidays_prior_scale","seasonality_prior_scale"):
-    ctor("Prophet",p,"stores float(%s)" % p)
-ctor("ProximityStump","get_exemplars","never stores `get_exemplars` (a differently named attribute is set)")
-ctor("ProximityTree","distance_measure","stores distance_measure=None regardless of the argument")
-ctor("ProximityTree","get_distance_measure","assigns get_distance_measure twice (first from distance_measure)")
-ctor("ROCKETClassifier","n_estimators","overwrites n_estimators with ensemble_size when ensemble is requested")
-ctor("SFA","word_length","stores word_length=min(word_length, window_size - offset)")
-ctor("_MetricFunctionWrapper","func","stores `func` as `_func`: get_params() raises AttributeError for every metric class (clone / set_params / grid search over metrics impossible)")
-ctor("_MetricFunctionWrapper","name","stores name or func.__name__")
-# dynamic consequences of the metric / strategy constructors
-add("every forecasting metric class: get_params() raises AttributeError because _MetricFunctionWrapper stores func as _func",
-    {"kind":"p_params","clause":"get-params-fails","where":{"lineage":"_MetricFunctionWrapper"}})
-add("benchmarking strategies: set_params(**get_params()) raises because BaseStrategy stores estimator/name under private names",
-    {"kind":"p_params","clause_re":"^(set-get-roundtrip|get-params-fails|clone-params|get-after-construct|unknown-name)","where":{"lineage":"BaseStrategy"}})
-add("TSRStrategy/TSCStrategy(name=...): `name` is kept as `_name` (BaseStrategy)",
-    {"kind":"p_ctor","clause":"ctor-arg-not-stored","where":{"lineage":"BaseStrategy","param":"name"}})
-add("TSRStrategy/TSCStrategy(estimator=...): `estimator` is kept as `_estimator` (BaseStrategy)",
-    {"kind":"p_ctor","clause":"ctor-arg-not-stored","where":{"lineage":"BaseStrategy","param":"estimator"}})
-add("metric wrapper subclasses: `name` is stored as name-or-func.__name__ (dynamic confirmation, inherited from _MetricFunctionWrapper)",
-    {"kind":"p_ctor","clause":"ctor-arg-not-stored","where":{"lineage":"_MetricFunctionWrapper","param":"name"}})
-add("metric wrapper subclasses: `func` is stored as `_func` (dynamic confirmation, inherited from _MetricFunctionWrapper)",
-    {"kind":"p_ctor","clause":"ctor-arg-not-stored","where":{"lineage":"_MetricFunctionWrapper","param":"func"}})
-# guard
-def guard(owner, method, what, cls=None):
-    w={"owner":owner,"method":method}
-    if cls: w["cls"]=cls
-    add(what, {"kind":"guard_static","clause":"guard-not-first","where":w})
-guard("_SktimeForecaster","update_predict","_SktimeForecaster.update_predict has no check_is_fitted(): with the default cv=None it reads self.fh first and an unfitted forecaster raises ValueError('No `fh` has been set yet') instead of NotFittedError (inherited by every forecaster)")
-guard("_BaseWindowForecaster","update_predict","_BaseWindowForecaster.update_predict has no check_is_fitted(): with cv=None it reads self.fh / self.cutoff / window_length_ first (ValueError instead of NotFittedError)")
-guard("OnlineEnsembleForecaster","update_predict","OnlineEnsembleForecaster.update_predict enters _predict_moving_cutoff (reads/writes the cutoff) before any guard (static only: the first nested update() call still raises NotFittedError)")
-guard("Detrender","update","Detrender.update has no check_is_fitted(): before fit it fails with AttributeError on self.forecaster_")
-guard("BaseSupervisedLearningStrategy","predict","benchmarking strategies: predict reads self._task without a fitted-state guard (static only)")
-for c in ("ProximityForest","ProximityStump","ProximityTree"):
-    guard(c,"predict_proba","%s.predict_proba has no check_is_fitted() (static only: not importable here)" % c)
-guard("RotationForest","predict","contrib RotationForest.predict -> predict_proba touches fitted state without a guard (static only)")
-guard("RotationForest","predict_proba","contrib RotationForest.predict_proba touches fitted state without a guard (static only)")
-guard("ShapeDTW","predict","ShapeDTW.predict runs _preprocess (fitted state) before check_is_fitted (static only)")
-guard("ShapeDTW","predict_proba","ShapeDTW.predict_proba runs _preprocess (fitted state) before check_is_fitted (static only)")
-guard("BaseClassifier","score","ShapeDTW.score inherits the unguarded ShapeDTW.predict (static only)", cls="ShapeDTW")
-guard("_CachedTransformer","transform","_CachedTransformer.transform reads its cache without a fitted-state guard (static only)")
-add("update_predict with the default cv=None on an unfitted (or cloned) forecaster raises ValueError('No `fh` has been set yet'), not NotFittedError: neither _SktimeForecaster.update_predict nor the window-forecaster override calls check_is_fitted()",
-    {"kind":"p_apply","clause_re":"^not-fitted-error: .*update_predict.*: ValueError\\(cv=None\\)$","where":{"method":"update_predict"}})
-add("Detrender.update on an unfitted (or cloned) Detrender raises AttributeError ('forecaster_'), not NotFittedError",
-    {"kind":"p_apply","clause_re":"^not-fitted-error: .*Detrender.*update.*: AttributeError$","where":{"cls":"Detrender","method":"update"}})
+import re
+
+F = []
+
+
+def add(what, match, fix=None):
+    e = {"id": "F-C04-%d" % (len(F) + 1), "property": "C04", "status": "open", "what": what, "match": match}
+    if fix:
+        e["proposed_fix"] = fix
+    F.append(e)
+
+
+# ---------------------------------------------------------------- constructor contract
+def ctor(cls, param, what, fix=None):
+    add("%s.__init__: %s" % (cls, what),
+        {"kinds": ["ctor_static", "p_ctor"],
+         "clause_re": "^ctor-(not-verbatim|arg-not-stored): %s[.(]" % re.escape(cls),
+         "where": {"cls": cls, "param": param}}, fix)
+
+
+for c in ("ARIMA", "AutoARIMA", "PCATransformer", "KNeighborsTimeSeriesClassifier"):
+    ctor(c, "**", "takes **kwargs and hands them to the wrapped model; get_params()/clone cannot see them, "
+                  "so arguments passed that way are lost on clone")
+ctor("AutoETS", "**", "takes **kwargs and silently ignores them (misspelt arguments are accepted, "
+                      "nothing is stored)", "notes/C04-fix-5.diff")
+ctor("BaseStrategy", "estimator", "stores `estimator` as `_estimator` behind a read-only property: "
+     "set_params(**get_params()) raises AttributeError for every benchmarking strategy")
+ctor("BaseStrategy", "name", "stores `name` as `_name` (defaulted to the estimator's class name when None) "
+     "behind a read-only property")
+ctor("ColumnEnsembleClassifier", "remainder", "stores `remainder`, then calls "
+     "BaseColumnEnsembleClassifier.__init__, which overwrites it with the literal 'drop': the argument is "
+     "silently ignored", "notes/C04-fix-2.diff")
+ctor("ElasticEnsemble", "distance_measures", "replaces distance_measures='all' by the list of distance functions")
+for p in ("stc_params", "tsf_params", "rise_params", "cboss_params"):
+    ctor("HIVECOTEV1", p, "replaces %s=None by a default dict before storing it" % p)
+ctor("MeanSquaredScaledError", "sp", "ignores its `sp` argument: passes the literal sp=1 to the wrapper "
+     "constructor", "notes/C04-fix-1.diff")
+for c in ("MiniRocket", "MiniRocketMultivariate"):
+    ctor(c, "random_state", "stores np.int32(random_state) for an int and None for anything else "
+         "(np.int64, RandomState are dropped; clone(MiniRocket(random_state=3)) gets random_state=None)")
+ctor("Rocket", "random_state", "stores random_state only if it is a Python int, None otherwise "
+     "(np.int64 / RandomState instances are silently dropped)", "notes/C04-fix-6.diff")
+for p in ("changepoint_prior_scale", "holidays_prior_scale", "seasonality_prior_scale"):
+    ctor("Prophet", p, "stores float(%s): an int argument comes back as a float and sklearn.clone "
+         "refuses the estimator ('constructor either does not set or modifies parameter')" % p,
+         "notes/C04-fix-7.diff")
+ctor("ProximityStump", "get_exemplars", "stores `get_exemplars` as `pick_exemplars`: get_params() raises AttributeError")
+ctor("ProximityTree", "distance_measure", "stores distance_measure=None regardless of the argument")
+ctor("ProximityTree", "get_distance_measure", "assigns get_distance_measure twice (first from distance_measure)")
+ctor("ROCKETClassifier", "n_estimators", "overwrites n_estimators with ensemble_size when the deprecated "
+     "`ensemble` argument is given")
+ctor("SFA", "word_length", "stores min(word_length, window_size - offset) instead of the argument")
+ctor("_MetricFunctionWrapper", "func", "stores `func` as `_func`: get_params() raises AttributeError for "
+     "every object returned by make_forecasting_scorer and for every metric-class base")
+ctor("_MetricFunctionWrapper", "name", "stores `name if name is not None else func.__name__`")
+
+# dynamic consequences in the classes that inherit those constructors
+add("metric wrapper classes (everything built on _MetricFunctionWrapper, incl. make_forecasting_scorer): "
+    "get_params() raises AttributeError because `func` is kept as `_func`",
+    {"kind": "p_params", "clause": "get-params-fails", "where": {"lineage": "_MetricFunctionWrapper", "aspect": "get"}})
+add("metric wrapper subclasses: name=None comes back as func.__name__ (inherited from _MetricFunctionWrapper)",
+    {"kind": "p_ctor", "clause": "ctor-arg-not-stored", "where": {"lineage": "_MetricFunctionWrapper", "param": "name"}})
+add("benchmarking strategies: set_params(**get_params()) raises AttributeError (estimator / name are "
+    "read-only properties over _estimator / _name)",
+    {"kind": "p_params", "clause_re": "^set-get-roundtrip: .*raised:AttributeError$",
+     "where": {"lineage": "BaseStrategy", "aspect": "roundtrip"}})
+add("benchmarking strategies: name=None comes back as the estimator's class name (BaseStrategy)",
+    {"kind": "p_ctor", "clause": "ctor-arg-not-stored", "where": {"lineage": "BaseStrategy", "param": "name"}})
+
+
+# ---------------------------------------------------------------- guard first
+def guard(owner, method, what, cls=None, fix=None):
+    w = {"owner": owner, "method": method}
+    if cls:
+        w["cls"] = cls
+    add(what, {"kind": "guard_static", "clause": "guard-not-first", "where": w}, fix)
+
+
+guard("_SktimeForecaster", "update_predict", "_SktimeForecaster.update_predict has no check_is_fitted(): "
+      "with the default cv=None it reads self.fh first, so an unfitted (or cloned) forecaster raises "
+      "ValueError('No `fh` has been set yet') instead of NotFittedError (inherited by every forecaster)",
+      fix="notes/C04-fix-3.diff")
+guard("_BaseWindowForecaster", "update_predict", "_BaseWindowForecaster.update_predict has no "
+      "check_is_fitted(): with cv=None it reads self.fh / self.cutoff / window_length_ first "
+      "(ValueError instead of NotFittedError)", fix="notes/C04-fix-3.diff")
+guard("Detrender", "update", "Detrender.update has no check_is_fitted(): before fit it fails with "
+      "AttributeError on self.forecaster_", fix="notes/C04-fix-4.diff")
+guard("BaseSupervisedLearningStrategy", "predict", "benchmarking strategies: predict before fit fails with "
+      "AttributeError on self._task.features (no fitted state, no guard)")
+for c in ("ProximityForest", "ProximityStump", "ProximityTree"):
+    guard(c, "predict_proba", "%s.predict_proba has no check_is_fitted() (static only: not importable here)" % c)
+guard("RotationForest", "predict", "contrib RotationForest.predict -> predict_proba uses fitted state without a guard (static only)")
+guard("RotationForest", "predict_proba", "contrib RotationForest.predict_proba uses fitted state without a guard (static only)")
+guard("ShapeDTW", "predict", "ShapeDTW.predict has no check_is_fitted(): _preprocess reads self.sw, set only by fit (static only)")
+guard("ShapeDTW", "predict_proba", "ShapeDTW.predict_proba has no check_is_fitted(): _preprocess reads self.sw (static only)")
+guard("BaseClassifier", "score", "ShapeDTW.score inherits the unguarded ShapeDTW.predict (static only)", cls="ShapeDTW")
+guard("_CachedTransformer", "transform", "_CachedTransformer.transform works (returns a result) without fit: "
+      "no fitted-state guard (static only)")
+
+for owner in ("_SktimeForecaster", "_BaseWindowForecaster"):
+    add("update_predict with the default cv=None on an unfitted or cloned forecaster raises ValueError('No `fh` "
+        "has been set yet'), not NotFittedError (body of %s.update_predict: no check_is_fitted())" % owner,
+        {"kind": "p_apply",
+         "clause_re": r"^not-fitted-error: .*[.]update_predict( before fit)?: ValueError\(cv=None\)$",
+         "where": {"owner": owner, "method": "update_predict"}}, "notes/C04-fix-3.diff")
+add("Detrender.update on an unfitted or cloned Detrender raises AttributeError ('forecaster_'), not NotFittedError",
+    {"kind": "p_apply", "clause_re": r"^not-fitted-error: .*Detrender.*[.]update( before fit)?: AttributeError$",
+     "where": {"owner": "Detrender", "method": "update", "cls": "Detrender"}}, "notes/C04-fix-4.diff")
 add("Detrender.update before fit / after clone raises AttributeError instead of NotFittedError (history form)",
-    {"kind":"tree_hist","clause_re":"^history: \\['apply', 'update'\\].*: AttributeError \\(expected NotFitted\\)$","where":{"cls":"Detrender"}})
-# mutation
-def mut(owner,param,what):
-    add(what, {"kind":"mut_static","clause":"param-reassigned","where":{"owner":owner,"param":param}})
-mut("CanonicalIntervalForest","min_interval","CanonicalIntervalForest.fit overwrites min_interval when the series are shorter")
-mut("DrCIF","min_interval","DrCIF.fit overwrites min_interval when the series are shorter")
-mut("BaseTimeSeriesForest@sktime.series_as_features.base.estimators.interval_based._tsf","min_interval","TimeSeriesForest fit overwrites min_interval with the series length when series are shorter (classifier and regressor)")
-for p in ("n_parameter_samples","time_limit"):
-    mut("ContractableBOSS",p,"ContractableBOSS.fit overwrites %s (contract handling)" % p)
-    mut("TemporalDictionaryEnsemble",p,"TemporalDictionaryEnsemble.fit overwrites %s (contract handling)" % p)
-mut("KNeighborsTimeSeriesClassifier","distance_params","KNeighborsTimeSeriesClassifier.fit overwrites distance_params after the 'dtwcv' grid search")
-for p in ("changepoints","n_changepoints"):
-    mut("_ProphetAdapter",p,"Prophet fit (_check_changepoints) overwrites %s" % p)
-for c,ps in (("ProximityForest",("distance_measure","get_distance_measure","random_state")),("ProximityStump",("distance_measure","get_distance_measure","random_state")),("ProximityTree",("distance_measure","get_distance_measure","random_state","find_stump"))):
+    {"kind": "tree_hist", "clause_re": r"^history: \['apply', 'update'\].*: AttributeError \(expected NotFitted\)$",
+     "where": {"cls": "Detrender"}}, "notes/C04-fix-4.diff")
+
+
+# ---------------------------------------------------------------- fit keeps the parameters
+def mut(owner, param, what, fix=None):
+    add(what, {"kind": "mut_static", "clause": "param-reassigned", "where": {"owner": owner, "param": param}}, fix)
+
+
+mut("CanonicalIntervalForest", "min_interval", "CanonicalIntervalForest.fit overwrites min_interval when the series are shorter")
+mut("DrCIF", "min_interval", "DrCIF.fit overwrites min_interval when the series are shorter")
+mut("BaseTimeSeriesForest@sktime.series_as_features.base.estimators.interval_based._tsf", "min_interval",
+    "TimeSeriesForest fit overwrites min_interval with the series length when the series are shorter (classifier and regressor)")
+for p, w in (("n_parameter_samples", "sets n_parameter_samples = 0 when a time limit is given"),
+             ("time_limit", "multiplies time_limit by 60 on EVERY fit (a second fit of the same object "
+                            "uses a 60 times longer contract)")):
+    mut("ContractableBOSS", p, "ContractableBOSS.fit " + w, "notes/C04-fix-8.diff")
+    mut("TemporalDictionaryEnsemble", p, "TemporalDictionaryEnsemble.fit " + w)
+mut("KNeighborsTimeSeriesClassifier", "distance_params", "KNeighborsTimeSeriesClassifier.fit overwrites distance_params after the 'dtwcv' grid search")
+for p in ("changepoints", "n_changepoints"):
+    mut("_ProphetAdapter", p, "Prophet fit (_check_changepoints) overwrites %s" % p)
+for c, ps in (("ProximityForest", ("distance_measure", "get_distance_measure", "random_state")),
+              ("ProximityStump", ("distance_measure", "get_distance_measure", "random_state")),
+              ("ProximityTree", ("distance_measure", "get_distance_measure", "random_state", "find_stump"))):
     for p in ps:
-        mut(c,p,"%s.fit overwrites %s" % (c,p))
-mut("ShapeDTW","metric_params","ShapeDTW.fit overwrites metric_params")
-mut("_TSFreshFeatureExtractor","n_jobs","tsfresh extractors overwrite n_jobs with check_n_jobs(n_jobs) in fit/transform")
-add("ContractableBOSS.fit rebinds time_limit (dynamic confirmation of the static finding)",
-    {"kind":"p_fit","clause":"fit-changes-params","where":{"cls":"ContractableBOSS"}})
-add("FeatureUnion.fit replaces the transformer_list constructor parameter by a new list holding the fitted clones (scikit-learn's _update_transformer_list)",
-    {"kind":"p_fit","clause":"fit-changes-params","where":{"cls":"FeatureUnion"}})
-add("ColumnEnsembleClassifier.set_params(estimators=L, <component>=E): _set_params is keyed on the private alias `_estimators`, so the whole list `estimators` is applied LAST (as an ordinary parameter) and overrides or invalidates the component replacement - not the documented order whole list -> component -> component parameter",
-    {"kind":"tree_set","clause_re":"^(nested-set|valid-set-rejected|unknown-name)","where":{"colens_list_with_other":True}})
-json.dump(F,open("/verif/findings.d/C04.json","w"),indent=1)
+        mut(c, p, "%s.fit overwrites %s" % (c, p))
+mut("ShapeDTW", "metric_params", "ShapeDTW.fit overwrites metric_params (None -> {}, keys lower-cased)")
+mut("_TSFreshFeatureExtractor", "n_jobs", "tsfresh extractors overwrite n_jobs with check_n_jobs(n_jobs) in fit/transform")
+add("ContractableBOSS(time_limit=t, n_parameter_samples=n).fit leaves time_limit = 60*t and n_parameter_samples = 0 "
+    "(dynamic confirmation of the two static findings)",
+    {"kind": "p_fit", "clause_re": r"^fit-changes-params: ContractableBOSS\.fit rebinds \['n_parameter_samples', 'time_limit'\]$",
+     "where": {"cls": "ContractableBOSS"}}, "notes/C04-fix-8.diff")
+
+# ---------------------------------------------------------------- nested set order
+add("ColumnEnsembleClassifier.set_params(estimators=L, <component or component__param>=...): _set_params is keyed "
+    "on the private alias `_estimators`, so the whole list `estimators` is applied as an ordinary parameter in "
+    "the LAST phase and the component keys act on the OLD components - not the documented order whole list -> "
+    "component -> component parameter",
+    {"kind": "tree_set", "clause_re": "^(nested-set|valid-set-rejected|unknown-name)",
+     "where": {"colens_list_with_other": True, "tree.cls": "ColumnEnsembleClassifier"}}, "notes/C04-fix-9.diff")
+
+json.dump(F, open("/verif/findings.d/C04.json", "w"), indent=1)
 print(len(F))
